@@ -134,6 +134,7 @@ def run(prog, chk):
     chk.rule('R11.2', 'collector is safe at any call site: conservative roots (use_count vs traced-reference count) dominate the sweep')
     chk.rule('R11.3', 'timer thread touches only atomic/mutex/condition_variable members and never reaches the collector')
     chk.rule('R11.4', 'timer thread stopped+joined first in the destructor and before the final collection; started only when not joinable')
+    chk.rule('R11.5', 'the sweep never decides when an object it does not reclaim is destroyed: excluded objects, their referrers and referents are kept')
     gc = R.ev_method('runCycleCollector')
     markValue = R.ev_method('markValue')
     markObject = R.ev_method('markObject')
@@ -329,6 +330,7 @@ def run(prog, chk):
                     entry = lf
     if entry is None:
         raise AnalysisBroken('timer thread entry lambda not found')
+    _rule_sweep_closed(prog, chk, R, gc, markObject, objfields, entry)
     ftypes = {f['name']: f['type'] for f in R.ev['fields']}
     reach = prog.reach([entry])
     touched = {}
@@ -395,6 +397,248 @@ def run(prog, chk):
                         if not pol and any(x['k'] == 'mcall' and SX.short(x['callee']) == 'joinable' for x in SX.walk(ce)):
                             ok = True
                 chk.ob('R11.4', f, n.get('ln', f.ln), ok, 'timer thread may only be (re)started when the previous one is not joinable', key='start-guard:' + f.short)
+
+
+
+def _conj(c):
+    c = SX.strip(c)
+    if SX.is_node(c) and c.get('k') == 'bin' and c['op'] == '&&':
+        return _conj(c['l']) + _conj(c['r'])
+    return [c]
+
+
+def _rule_sweep_closed(prog, chk, R, gc, markObject, objfields, entry):
+    """R11.5 — the sweep leaves alone unreachable objects whose class carries an exclusion flag (they own qubits / tracked state and
+    are destroyed the ordinary, observable way when their last owner goes).  Clearing the fields of a swept object that refers to
+    such an object would be that moment — decided by the collector's schedule — and whatever the excluded object still refers to
+    must stay intact for its destructor.  So: (A) the excluded unreachable objects are collected in a set; (C) the set is closed
+    under "refers to a member" by a fixpoint over the candidates, over every kind of object reference a Value can hold, skipped
+    only by the collection at the end of the run; (B) every member is marked (and with it all it reaches) before anything is
+    selected."""
+    top = gc.body['body']
+    src = _loop_sources(gc.body)
+
+    def is_cand_loop(s):
+        if not (SX.is_node(s) and s.get('k') == 'forrange' and _full_range(s)):
+            return False
+        r = SX.strip(s['range'])
+        return SX.is_node(r) and r.get('k') == 'ref' and r.get('t', '').replace('const ', '') in ('std::vector<std::shared_ptr<bloch::runtime::Object>>',)
+
+    def body_list(s):
+        b = s.get('body') if s.get('k') != 'if' else s.get('t')
+        if SX.is_node(b) and b.get('k') == 'block':
+            return b['body']
+        return [b] if b is not None else []
+
+    def rooted_at(e, vid):
+        root, _ = SX.member_chain(SX.strip(e))
+        return SX.is_node(root) and root.get('k') == 'ref' and root.get('id') == vid
+
+    def is_not_marked(c, vid):
+        return SX.is_node(c) and c.get('k') == 'un' and c['op'] == '!' and SX.member_chain(SX.strip(c['e']))[1] == ['marked'] and rooted_at(c['e'], vid)
+
+    def is_cls_nonnull(c, vid):
+        return SX.is_node(c) and SX.member_chain(c)[1] == ['cls'] and rooted_at(c, vid)
+
+    def cls_flag(c, vid):
+        n_ = SX.member_chain(c)[1] if SX.is_node(c) else []
+        return n_[1] if len(n_) == 2 and n_[0] == 'cls' and rooted_at(c, vid) else None
+
+    # the selection
+    sel = None
+    for s in top:
+        if not is_cand_loop(s):
+            continue
+        for i_ in SX.walk(s['body'], into_lambdas=False):
+            if i_.get('k') == 'if' and any(w and SX.member_chain(SX.strip(w[0]))[1][-1:] == ['skipDestructor'] for x in SX.walk(i_['t'], into_lambdas=False)
+                                           for w in [SX.write_target(x)]):
+                sel = (s, i_)
+    if sel is None:
+        raise AnalysisBroken('the loop that selects objects for the sweep was not found')
+    loop, iff = sel
+    vid = loop['var']['id']
+    excl = []
+    for c in _conj(iff['c']):
+        if is_not_marked(c, vid) or is_cls_nonnull(c, vid):
+            continue
+        if SX.is_node(c) and c.get('k') == 'un' and c['op'] == '!' and cls_flag(SX.strip(c['e']), vid):
+            excl.append(cls_flag(SX.strip(c['e']), vid))
+            continue
+        raise AnalysisBroken('sweep selection: conjunct %s not understood' % SX.show(c)[:60])
+    chk.extra['sweep_exclusions'] = excl
+    if not excl:
+        chk.ob('R11.5', gc, iff.get('ln', gc.ln), True, '', key='sweep-closed:no-exclusion', nontrivial=False)
+        return
+    if len(excl) != 1:
+        raise AnalysisBroken('sweep selection excludes by several class flags: %s' % excl)
+    F = excl[0]
+    kept = [n for n in SX.walk(gc.body, into_lambdas=False) if n['k'] == 'var' and 'set<const bloch::runtime::Object *' in n['type']]
+    elsewhere = [x for x in SX.walk(gc.body) if x.get('k') == 'member' and x.get('name') == F and not any(x is y for y in SX.walk(iff['c']))]
+    why = ('unreachable objects whose class has %s are not reclaimed but destroyed the ordinary way (destructor, reset, tracked outcome) when their last '
+           'owner goes; the sweep clears the fields of every other unreachable object, so one that refers to such an object destroys it at whatever '
+           'statement the collector happens to run (and what the object itself refers to may have been cleared before its destructor looks at it)' % F)
+    if not kept:
+        if elsewhere:
+            raise AnalysisBroken('the collector treats %s-objects specially in a form this rule does not model' % F)
+        chk.ob('R11.5', gc, iff.get('ln', gc.ln), False, why + ': nothing keeps their referrers and referents', key='sweep-closed:design')
+        return
+    if len(kept) != 1:
+        raise AnalysisBroken('several kept-sets in the collector')
+    K = kept[0]
+
+    def is_count(c, ovid, neg=False):
+        c = SX.strip(c)
+        if neg:
+            if not (SX.is_node(c) and c.get('k') == 'un' and c['op'] == '!'):
+                return False
+            c = SX.strip(c['e'])
+        if not (SX.is_node(c) and c.get('k') == 'mcall' and SX.short(c['callee']) in ('count', 'contains')):
+            return False
+        o = SX.strip(c['obj'])
+        a = SX.real_args(c)
+        return SX.is_node(o) and o.get('k') == 'ref' and o.get('id') == K['id'] and len(a) == 1 and (ovid is None or rooted_at(a[0], ovid))
+
+    def inserts(stmts, ovid):
+        for s in stmts:
+            e = s.get('e') if SX.is_node(s) and s.get('k') == 'expr' else s
+            e = SX.strip(e) if SX.is_node(e) else e
+            if SX.is_node(e) and e.get('k') == 'mcall' and SX.short(e['callee']) in ('insert', 'emplace'):
+                o = SX.strip(e['obj'])
+                a = SX.real_args(e)
+                if SX.is_node(o) and o.get('id') == K['id'] and len(a) == 1 and rooted_at(a[0], ovid):
+                    return True
+        return False
+
+    idx = {id(s): i for i, s in enumerate(top)}
+    pos_sel = idx[id(loop)]
+    # (A) seed
+    seed = None
+    for i, s in enumerate(top):
+        if is_cand_loop(s) and i < pos_sel:
+            b = body_list(s)
+            v = s['var']['id']
+            if len(b) == 1 and b[0].get('k') == 'if' and not b[0].get('e') and inserts(body_list(b[0]), v):
+                cj = _conj(b[0]['c'])
+                rest = [c for c in cj if not (is_not_marked(c, v) or is_cls_nonnull(c, v))]
+                if len(rest) == 1 and cls_flag(rest[0], v) == F:
+                    seed = i
+    chk.ob('R11.5', gc, K.get('ln', gc.ln), seed is not None,
+           why + ': every unreachable object with %s is put into %s by a full loop over the candidates before the selection' % (F, K['name']), key='sweep-closed:seed')
+    # (B) marking of the kept objects
+    mark = None
+    for i, s in enumerate(top):
+        if is_cand_loop(s) and i < pos_sel:
+            b = body_list(s)
+            v = s['var']['id']
+            if len(b) == 1 and b[0].get('k') == 'if' and not b[0].get('e') and is_count(b[0]['c'], v):
+                t = body_list(b[0])
+                e = SX.strip(t[0].get('e')) if len(t) == 1 and t[0].get('k') == 'expr' else None
+                if SX.is_node(e) and e.get('k') == 'mcall' and e.get('callee') == markObject.name and rooted_at(SX.real_args(e)[0], v):
+                    mark = i
+    chk.ob('R11.5', gc, K.get('ln', gc.ln), mark is not None and (seed is None or mark > seed),
+           why + ': every member of %s is marked — and with it everything it reaches — by an unconditional full loop before the selection' % K['name'],
+           key='sweep-closed:mark')
+    # (C) the fixpoint
+    stop = _stop_flag(entry)
+    fix = None
+    detail = 'no fixpoint loop found'
+    for i, s in enumerate(top):
+        if i >= pos_sel:
+            break
+        inner = [s]
+        guarded = False
+        if s.get('k') == 'if' and not s.get('e'):
+            cj = _conj(s['c'])
+            if len(cj) == 1 and SX.is_node(cj[0]) and cj[0].get('k') == 'un' and cj[0]['op'] == '!' and \
+                    any(x.get('k') == 'member' and x.get('name') == stop for x in SX.walk(cj[0]['e'])) and \
+                    not any(x.get('k') == 'ref' and not x.get('global') for x in SX.walk(cj[0]['e'])):
+                inner = body_list(s)
+                guarded = True
+            else:
+                if any(x.get('k') == 'while' for x in SX.walk(s, into_lambdas=False)) and any(x.get('k') == 'ref' and x.get('id') == K['id'] for x in SX.walk(s)):
+                    detail = 'the closure is skipped under `%s`, which is not "the run is over"' % SX.show(s['c'])[:50]
+                continue
+        for j, w in enumerate(inner):
+            if w.get('k') != 'while':
+                continue
+            g = SX.strip(w['c'])
+            if not (SX.is_node(g) and g.get('k') == 'ref'):
+                continue
+            gid = g['id']
+            gdecl = [d for x in inner[:j] if x.get('k') == 'decls' for d in x['d'] if d['id'] == gid]
+            wb = body_list(w)
+            if not gdecl or len(wb) != 2:
+                detail = 'fixpoint loop not of the form `while (g) { g = false; for (…) … }`'
+                continue
+            init = SX.strip(gdecl[0].get('init'))
+            init_ok = SX.is_node(init) and ((init.get('k') == 'bool' and init.get('v') is True) or
+                                            (init.get('k') == 'un' and init['op'] == '!' and SX.is_node(SX.strip(init['e'])) and SX.strip(init['e']).get('k') == 'mcall'
+                                             and SX.short(SX.strip(init['e'])['callee']) == 'empty' and SX.strip(SX.strip(init['e'])['obj']).get('id') == K['id']))
+            w0 = SX.write_target(wb[0].get('e')) if wb[0].get('k') == 'expr' else None
+            clr = bool(w0) and SX.strip(w0[0]).get('id') == gid and w0[2] == '=' and SX.strip(w0[1]).get('v') is False
+            lp = wb[1]
+            if not (init_ok and clr and is_cand_loop(lp)):
+                detail = 'fixpoint loop: flag initialised to %s, cleared first: %s, inner loop over all candidates: %s' % (SX.show(init)[:30], clr, is_cand_loop(lp))
+                continue
+            v = lp['var']['id']
+            b = body_list(lp)
+            if not (len(b) == 1 and b[0].get('k') == 'if' and not b[0].get('e')):
+                detail = 'fixpoint loop body is not a single test'
+                continue
+            cj = _conj(b[0]['c'])
+            P = [c for c in cj if not (is_not_marked(c, v) or is_count(c, v, neg=True))]
+            has_notin = any(is_count(c, v, neg=True) for c in cj)
+            t = body_list(b[0])
+            sets = any(x.get('k') == 'expr' and (SX.write_target(x['e']) or [None])[0] is not None and SX.strip(SX.write_target(x['e'])[0]).get('id') == gid and
+                       SX.strip(SX.write_target(x['e'])[1]).get('v') is True for x in t)
+            if not (len(P) == 1 and has_notin and inserts(t, v) and sets):
+                detail = 'fixpoint step must be `if (!marked && !%s.count(o) && refers(o)) { %s.insert(o); g = true; }`' % (K['name'], K['name'])
+                continue
+            pc = SX.strip(P[0])
+            lam = None
+            if SX.is_node(pc) and pc.get('k') == 'opcall' and pc.get('op') == '()' and SX.is_node(pc['args'][0]) and pc['args'][0].get('k') == 'ref':
+                for lf in gc.lambdas:
+                    for d in SX.walk(gc.body, into_lambdas=False):
+                        if d['k'] == 'var' and d['id'] == pc['args'][0]['id'] and d.get('init') is lf.node:
+                            lam = lf
+            if lam is None or not rooted_at(pc['args'][1], v):
+                detail = 'the "refers to a kept object" test is not a local closure applied to the candidate'
+                continue
+            fix = (i, guarded, lam)
+    ok_fix = fix is not None and (seed is None or fix[0] > seed) and (mark is None or fix[0] < mark)
+    chk.ob('R11.5', gc, K.get('ln', gc.ln), ok_fix,
+           why + ': %s is closed under "refers to a member" by a fixpoint over all candidates between seeding and marking, skipped only when the run is over (%s)' % (
+               K['name'], detail if fix is None else 'order'), key='sweep-closed:fixpoint')
+    if fix is None:
+        return
+    lam = fix[2]
+    # the closure: every kind of object reference of a Value is looked at; it answers true only through a membership test, false only at the end
+    lsrc = _loop_sources(lam.body)
+    pid = lam.params[0]['id'] if lam.params else None
+    lb = lam.body['body'] if lam.body.get('k') == 'block' else [lam.body]
+    rets = [x for x in SX.walk(lam.body, into_lambdas=False) if x['k'] == 'return']
+    last_false = bool(lb) and lb[-1].get('k') == 'return' and SX.strip(lb[-1].get('e')).get('v') is False
+    others_true = all(SX.strip(x.get('e')).get('v') is True for x in rets if x is not lb[-1])
+    loops_full = all(not any(y['k'] in ('break', 'continue') for y in SX.walk(l['body'], into_lambdas=False)) for l in SX.walk(lam.body, into_lambdas=False) if l['k'] == 'forrange')
+    for fld in objfields:
+        hit = False
+        for c in SX.walk(lam.body, into_lambdas=False):
+            if is_count(c, None):
+                a = SX.real_args(c)[0]
+                root, names = SX.member_chain(SX.strip(a))
+                chain = list(names)
+                hops = 0
+                while SX.is_node(root) and root.get('k') == 'ref' and root.get('id') in lsrc and hops < 4:
+                    r2, n2 = SX.member_chain(SX.strip(lsrc[root['id']]['range']))
+                    chain = n2 + chain
+                    root = r2
+                    hops += 1
+                if SX.is_node(root) and root.get('k') == 'ref' and root.get('id') == pid and chain[:1] == ['fields'] and fld in chain:
+                    # the test decides a `return true`
+                    hit = True
+        chk.ob('R11.5', lam, lam.ln, hit and last_false and others_true and loops_full,
+               why + ': the closure test follows Value::%s of every field of the candidate (answers true on a member, false only after all fields)' % fld,
+               key='sweep-closed:follows:' + fld)
 
 
 def _inc_over_loop(lf, inc, fld):
